@@ -46,19 +46,19 @@ theorem ok_shape {pkgs : List LPkg} {budget : Int} {o1 o2 o3 o4 : Order} {gs : L
       phase4 o3 (phase3 o2 (phase2 o1 (phase1 pkgs))) (phase2 o1 (phase1 pkgs)) = .ok st4 ∧
       gs = finish o4 budget.toNat st4 := by
   unfold groupByOriginAndSize at h
-  simp only at h
-  cases h4 : phase4 o3 (phase3 o2 (phase2 o1 (phase1 pkgs))) (phase2 o1 (phase1 pkgs)) with
-  | ok st4 =>
-    rw [h4] at h
-    simp only [Res.bind] at h
-    split at h
-    · cases h
-    · rename_i hb
+  split at h
+  · cases h
+  · rename_i hb
+    simp only at h
+    cases h4 : phase4 o3 (phase3 o2 (phase2 o1 (phase1 pkgs))) (phase2 o1 (phase1 pkgs)) with
+    | ok st4 =>
+      rw [h4] at h
+      simp only [Res.bind] at h
       refine ⟨by omega, st4, rfl, ?_⟩
       cases h
       rfl
-  | err => rw [h4] at h; simp [Res.bind] at h
-  | panic => rw [h4] at h; simp [Res.bind] at h
+    | err => rw [h4] at h; simp [Res.bind] at h
+    | panic => rw [h4] at h; simp [Res.bind] at h
 
 theorem groupCount : GroupCount := by
   intro pkgs budget o1 o2 o3 o4 gs h
